@@ -403,11 +403,20 @@ func cmdCheck(args []string) {
 	var slowest []*Obligation
 	nCanary, canaryBad := 0, 0
 	for _, fc := range res.fcs {
+		funcFailed := false
+		for _, o := range fc.obls {
+			if o.Kind != "canary" && only(o) && o.Status != "unsat" {
+				funcFailed = true
+			}
+		}
 		for _, o := range fc.obls {
 			if !only(o) {
 				continue
 			}
 			if o.Kind == "canary" {
+				if funcFailed {
+					continue // a failed obligation is assumed afterwards; vacuity behind it is expected
+				}
 				nCanary++
 				if o.Status == "unsat" {
 					canaryBad++
